@@ -3,7 +3,8 @@
 # (exit 0: held; exit 2 "undecided" is recorded - the contract could not be applied to the restructured code - but is not an alarm;
 # exit 1 / a VIOLATION line on such a change is a FALSE ALARM of the machinery).
 cd /verif
-python3 - "$1" <<'PY' > /tmp/rf_list.txt
+LIST=$(mktemp /tmp/rf_list.XXXXXX)
+python3 - "$1" <<'PY' > "$LIST"
 import json,sys,glob
 sub=sys.argv[1] if len(sys.argv)>1 else ""
 for g in ("A","B","C","D","E","F","G","H","I","J"):
@@ -27,5 +28,6 @@ while read NAME PROPS; do
   done
   echo "$NAME:$RES"
   rm -rf "$D"
-done < /tmp/rf_list.txt
+done < "$LIST"
+rm -f "$LIST"
 exit $FAIL
